@@ -351,11 +351,22 @@ Proof.
   intros He Hj. unfold trim, fsize. rewrite Hj, Z.add_0_r, Z.mod_mul by lia. reflexivity.
 Qed.
 
+(* after initialisation both tip keys exist: resetIfNoTip never fires *)
+Lemma btip_Some s a : Inv s a -> btip s = Some (default 0 (last (bl a))).
+Proof.
+  intros []. rewrite i_bt0. destruct (last (bl a)) eqn:E; [reflexivity|apply last_None in E; contradiction].
+Qed.
+Lemma ftip_Some s a : Inv s a -> ftip s = Some (default 0 (at_h (bl a) (alen (fl a) - 1))).
+Proof.
+  intros HI. destruct (ftip_is_Some s a HI) as [t Ht]. destruct HI. by rewrite i_ft0, Ht.
+Qed.
+
 Lemma recover_id g gfh s a : Inv s a -> recover g gfh s = Some s.
 Proof.
   intros HI. unfold recover.
   assert (Hb : recover_block g s = Some s).
-  { unfold recover_block. rewrite trim_id by (unfold BSZ; lia || by destruct HI). rewrite set_bf_id.
+  { unfold recover_block. rewrite trim_id by (unfold BSZ; lia || by destruct HI).
+    rewrite (btip_Some s a HI). cbn [reset_if_no_tip]. rewrite set_bf_id.
     cbv zeta. destruct HI.
     pose proof (fsize_pos BSZ (bf s) (bl a) ltac:(unfold BSZ; lia) i_be0 i_bj0 i_bne0) as Hp.
     replace (fsize BSZ (bf s) =? 0) with false by (symmetry; apply Z.eqb_neq; lia).
@@ -368,8 +379,9 @@ Proof.
     unfold u32. rewrite Z.mod_small by (unfold U32, LIMIT in *; lia).
     rewrite (bread s a HI). rewrite <- last_at_h by (assumption || lia). rewrite E. cbn [rd_tok].
     by rewrite Z.eqb_refl. }
-  rewrite Hb. unfold recover_filter. rewrite trim_id by (unfold FSZ; lia || by destruct HI). rewrite set_ff_id.
-  cbv zeta. destruct HI.
+  rewrite Hb. unfold recover_filter. rewrite trim_id by (unfold FSZ; lia || by destruct HI).
+  rewrite (ftip_Some s a HI). cbn [reset_if_no_tip]. rewrite set_ff_id.
+  cbv zeta. unfold reconcile_filter. destruct HI.
   pose proof (fsize_pos FSZ (ff s) (fl a) ltac:(unfold FSZ; lia) i_fe0 i_fj0 i_fne0) as Hp.
   replace (fsize FSZ (ff s) =? 0) with false by (symmetry; apply Z.eqb_neq; lia).
   assert (HI : Inv s a) by (constructor; assumption).
